@@ -57,7 +57,7 @@ def _cases(draw, max_n=3000, max_p=6, lead0=None):
         case["lead0"] = draw(st.integers(0, 3)) == 0
     else:
         case["lead0"] = lead0
-    case["container"] = draw(st.sampled_from(["ndarray", "list", "tuple"]))
+    case["container"] = draw(st.sampled_from(["ndarray", "list", "tuple", "ndarray", "list", "tuple", "float32"]))
     if draw(st.integers(0, 5)) == 0:
         # integer-typed periods (python ints / integer ndarray), as the repo's own test passes
         case["dt"] = draw(st.sampled_from([1.0, 0.5, 0.25, 0.1]))
@@ -79,7 +79,18 @@ def _periods(case, with_zero=None):
         return list(T)
     if c == "tuple":
         return tuple(T)
+    if c == "float32" and not case.get("int_periods"):
+        return np.array(T, dtype=np.float32)  # e.g. periods read from a single-precision file
     return np.array(T)
+
+
+def _T64(case):
+    """The non-zero periods as float64 numbers, exactly as a correct implementation sees them (a float32 container
+    holds the single-precision roundings)."""
+    T = np.array([float(r) * case["dt"] for r in case["ratios"]])
+    if case.get("container") == "float32" and not case.get("int_periods"):
+        T = T.astype(np.float32).astype(float)
+    return T
 
 
 def _classify(ctx, case, a):
@@ -99,6 +110,8 @@ def _classify(ctx, case, a):
         ctx.cls("lead0")
     if case.get("int_periods"):
         ctx.cls("int-periods")
+    if case.get("container") == "float32":
+        ctx.cls("float32-periods")
 
 
 @clause(CLAUSES, "exact", _cases(), quick=350, thorough=2200,
@@ -116,7 +129,7 @@ def exact(case, ctx):
     ru, rv, ra = ctx.lib(sdof.response_series, gen.as_container(case["rec"], a), dt, periods, xi)
     if case["rec"].get("as"):
         ctx.cls("as=" + case["rec"]["as"])
-    T = np.array([float(r) * dt for r in case["ratios"]])
+    T = _T64(case)
     s = 1 if case["lead0"] else 0
     n = len(a)
     ctx.shape(ru, (len(T) + s, n), "response displacement")
@@ -171,7 +184,7 @@ def acc_identity(case, ctx):
     periods = _periods(case)
     ru, rv, ra = ctx.lib(sdof.response_series, a, dt, periods, xi)
     s = 1 if case["lead0"] else 0
-    T = np.array([float(r) * dt for r in case["ratios"]])
+    T = _T64(case)
     w = (2 * np.pi / T)[:, None]
     ru, rv, ra = np.asarray(ru), np.asarray(rv), np.asarray(ra)
     t1 = 2 * xi * w * rv[s:]
